@@ -155,12 +155,12 @@ CHECKS = {
     'C16': (
         'fault enumeration over message boundaries: every procedure x every boundary k x 4 cut kinds, plus sampled delays',
         'exploration',
-        'A catalogue of 22 procedures that await the peer (GATT read/write/discover/subscribe/indicate, pairing, LE CoC '
+        'A catalogue of procedures that await the peer (37 after the extension round: (GATT read/write/discover/subscribe/indicate, pairing, LE CoC '
         'and classic channel connect/disconnect/drain, EATT, ACL disconnect, remote features/name, SDP, RFCOMM, AVDTP, '
-        'plain HCI command) is run un-faulted to count the messages M crossing the HCI taps; then for every k in 0..M and '
+        'plain HCI command, ...) is run un-faulted to count the messages M crossing the HCI taps; then for every k in 0..M and '
         'each of local disconnect / remote disconnect / link loss / transport loss the run is repeated on a fresh world '
-        'with the cut injected after message k (1284 runs enumerated in both tiers, plus Hypothesis-sampled delay '
-        'vectors). After quiescence: the awaitable is done, no task left pending, host/device/controller tables agree '
+        'with the cut injected after message k (every boundary enumerated in the thorough tier, a stratified subset for '
+        'the longest procedures in the quick tier, plus Hypothesis-sampled delay vectors). After quiescence: the awaitable is done, no task left pending, host/device/controller tables agree '
         'and no longer list the connection, GATT/SMP/L2CAP/ACL-queue state for it is gone, the bystander connection '
         'still works, and a new connection runs the same procedure successfully.',
         'Trusted: "every operation" = the catalogue listed in the evidence; hang = still pending at stall or 400 virtual '
@@ -295,6 +295,13 @@ CHECKS = {
 NOT_YET = 'check not built yet in this session (planned in DESIGN.md section 3)'
 
 
+try:
+    with open(os.path.join(VERIF, 'tools', 'ext_summary.json')) as _f:
+        EXTENSIONS = json.load(_f)
+except OSError:
+    EXTENSIONS = {}
+
+
 def main():
     with open(os.path.join(VERIF, 'properties.jsonl')) as f:
         props = [json.loads(line)['id'] for line in f if line.strip()]
@@ -307,6 +314,9 @@ def main():
         if pid not in CHECKS:
             continue
         technique, cat, text, note, ref = CHECKS[pid]
+        if pid in EXTENSIONS:
+            text += ' Extension round (DESIGN.md 7.6): ' + EXTENSIONS[pid]['added'].replace('`', '') + '.'
+            ref += ', 7.5, 7.6'
         checks.append(
             {
                 'property_id': pid,
